@@ -13,8 +13,8 @@ Import ListNotations.
 From Mpath.Model Require Import Conc.
 From Mpath.Generated Require Import Conc.
 From Mpath.Generated Require Purity.
-From Mpath.Proofs Require C12.
-Import Mpath.Proofs.C12.
+From Mpath.Proofs Require C12 C12b.
+Import Mpath.Proofs.C12 Mpath.Proofs.C12b.
 
 (** the checker is sound: for ANY table it accepts, any number of threads
     running any of its programs under any schedule never reach a state with
@@ -31,20 +31,41 @@ Theorem C12_check_locked_sound : forall fuel T,
 Proof. exact Mpath.Proofs.C12.C12_check_locked_sound. Qed.
 Print Assumptions C12_check_locked_sound.
 
+(** the same when only some programs of the table are places a goroutine can
+    start in (exported functions, functions used as values, functions nobody
+    calls by name: [conc_entries]); the others are helpers, checked in the
+    context of their callers — a helper may rely on its caller's lock *)
+Theorem C12_check_entries_sound : forall fuel T E,
+  check_entries fuel T E = true ->
+  forall names, (forall n, In n names -> In n E) ->
+  forall (sched : list nat) (g : gstate),
+    run T (init T names) sched g ->
+    ~ Racy g /\ ~ Shared g /\ ~ Crash T g /\
+    (forall i t, nth_error (g_thr g) i = Some t -> finished t ->
+       (forall m, s_mtx (g_sh g) m <> Some i) /\ t_owned t = []).
+Proof. exact Mpath.Proofs.C12b.C12b_entries_sound. Qed.
+Print Assumptions C12_check_entries_sound.
+
+(** checking every program as an entry point is the special case *)
+Theorem C12_check_entries_all : forall fuel T, check_entries fuel T (map fst T) = check_table fuel T.
+Proof. exact Mpath.Proofs.C12b.C12b_all_entries. Qed.
+Print Assumptions C12_check_entries_all.
+
 (** today's entry points, as read off the source, are accepted *)
-Theorem C12_entry_points_locked : check_table 4 conc_table = true.
+Theorem C12_entry_points_locked : check_entries 4 conc_table conc_entries = true.
 Proof. vm_compute. reflexivity. Qed.
 Print Assumptions C12_entry_points_locked.
 
 (** hence: CueValidate, ParseReadSeeker, ParseString and Select, from any
     number of goroutines in any interleaving *)
 Theorem C12_entry_points_safe :
-  forall (names : list string) (sched : list nat) (g : gstate),
+  forall (names : list string), (forall n, In n names -> In n conc_entries) ->
+  forall (sched : list nat) (g : gstate),
     run conc_table (init conc_table names) sched g ->
     ~ Racy g /\ ~ Shared g /\ ~ Crash conc_table g /\
     (forall i t, nth_error (g_thr g) i = Some t -> finished t ->
        (forall m, s_mtx (g_sh g) m <> Some i) /\ t_owned t = []).
-Proof. exact (Mpath.Proofs.C12.C12_check_locked_sound 4 conc_table C12_entry_points_locked). Qed.
+Proof. exact (Mpath.Proofs.C12b.C12b_entries_sound 4 conc_table conc_entries C12_entry_points_locked). Qed.
 Print Assumptions C12_entry_points_safe.
 
 (** an access in progress always holds the variable's guard *)
@@ -71,5 +92,6 @@ Print Assumptions C12_evaluation_only_reads_the_operation.
 
 (** non-vacuity: the table is not empty and mentions both caches and the pool *)
 Example C12_example :
-  conc_table <> [] /\ conc_mutable_maps <> [] /\ conc_pools <> [] /\ conc_mutexes <> [].
-Proof. repeat split; discriminate. Qed.
+  conc_table <> [] /\ conc_entries <> [] /\ conc_mutable_maps <> [] /\ conc_pools <> [] /\ conc_mutexes <> [] /\
+  In "CueValidate" conc_entries /\ In "ParseString" conc_entries.
+Proof. repeat split; try discriminate; vm_compute; intuition reflexivity. Qed.
